@@ -7,20 +7,106 @@ import PromVerif.Lemmas.RegistryDict
 namespace PromVerif.Model.Registry
 open PromVerif.Py PromVerif.Spec.Registry
 
-/-! ### `_get_names` computes the claims of the statement -/
+/-! ### `_get_names` records exactly the claims of the statement, each once -/
 
 theorem suffixesOf_eq (t : MType) : suffixesOf t = suffixes t := by
   cases t <;> decide
 
-theorem getNames_eq_claims (ad : Bool) (c : Collector) : getNames ad c = claims ad c := by
+theorem mem_appendNew (a n : Name) (r : List Name) : a ∈ appendNew r n ↔ a ∈ r ∨ a = n := by
+  unfold appendNew
+  split
+  · next h =>
+    constructor
+    · exact Or.inl
+    · rintro (h' | rfl) <;> assumption
+  · simp
+
+theorem nodup_appendNew {r : List Name} (h : r.Nodup) (n : Name) : (appendNew r n).Nodup := by
+  unfold appendNew
+  split
+  · exact h
+  · next hc =>
+    rw [List.nodup_append]
+    refine ⟨h, by simp, ?_⟩
+    intro a ha x hx
+    simp at hx; subst hx
+    intro e; subst e; exact hc ha
+
+theorem mem_addAll (a : Name) (ns : List Name) : ∀ r : List Name, a ∈ addAll r ns ↔ a ∈ r ∨ a ∈ ns := by
+  induction ns with
+  | nil => intro r; simp [addAll]
+  | cons n ns ih =>
+    intro r
+    have : addAll r (n :: ns) = addAll (appendNew r n) ns := rfl
+    rw [this, ih, mem_appendNew]
+    simp only [List.mem_cons]
+    constructor
+    · rintro ((h | h) | h)
+      · exact Or.inl h
+      · exact Or.inr (Or.inl h)
+      · exact Or.inr (Or.inr h)
+    · rintro (h | h | h)
+      · exact Or.inl (Or.inl h)
+      · exact Or.inl (Or.inr h)
+      · exact Or.inr h
+
+theorem nodup_addAll (ns : List Name) : ∀ {r : List Name}, r.Nodup → (addAll r ns).Nodup := by
+  induction ns with
+  | nil => intro r h; exact h
+  | cons n ns ih =>
+    intro r h
+    have : addAll r (n :: ns) = addAll (appendNew r n) ns := rfl
+    rw [this]
+    exact ih (nodup_appendNew h n)
+
+theorem familyNames_eq (m : Name × MType) : familyNames m = familyClaims m.1 m.2 := by
+  simp [familyNames, familyClaims, suffixesOf_eq]
+
+private theorem mem_foldFamilies (a : Name) (ms : List (Name × MType)) : ∀ r : List Name,
+    a ∈ ms.foldl (fun result m => addAll result (familyNames m)) r ↔ a ∈ r ∨ ∃ m, m ∈ ms ∧ a ∈ familyNames m := by
+  induction ms with
+  | nil => intro r; simp
+  | cons m ms ih =>
+    intro r
+    simp only [List.foldl_cons]
+    rw [ih, mem_addAll]
+    simp only [List.mem_cons]
+    constructor
+    · rintro ((h | h) | ⟨m', h1, h2⟩)
+      · exact Or.inl h
+      · exact Or.inr ⟨m, Or.inl rfl, h⟩
+      · exact Or.inr ⟨m', Or.inr h1, h2⟩
+    · rintro (h | ⟨m', rfl | h1, h2⟩)
+      · exact Or.inl (Or.inl h)
+      · exact Or.inl (Or.inr h2)
+      · exact Or.inr ⟨m', h1, h2⟩
+
+private theorem nodup_foldFamilies (ms : List (Name × MType)) : ∀ {r : List Name}, r.Nodup →
+    (ms.foldl (fun result m => addAll result (familyNames m)) r).Nodup := by
+  induction ms with
+  | nil => intro r h; exact h
+  | cons m ms ih =>
+    intro r h
+    simp only [List.foldl_cons]
+    exact ih (nodup_addAll _ h)
+
+/-- `_get_names` yields exactly the names the statement says the collector claims -/
+theorem mem_getNames_iff (ad : Bool) (c : Collector) (n : Name) : n ∈ getNames ad c ↔ n ∈ claims ad c := by
   unfold getNames claims
   cases described ad c with
-  | none => rfl
+  | none => simp
   | some ms =>
-    simp only [familyClaims]
-    congr 1
-    funext m
-    rw [suffixesOf_eq]
+    simp only [mem_foldFamilies, List.not_mem_nil, false_or, List.mem_flatMap]
+    constructor
+    · rintro ⟨m, h1, h2⟩; exact ⟨m, h1, by rw [← familyNames_eq]; exact h2⟩
+    · rintro ⟨m, h1, h2⟩; exact ⟨m, h1, by rw [familyNames_eq]; exact h2⟩
+
+/-- … each of them once -/
+theorem getNames_nodup (ad : Bool) (c : Collector) : (getNames ad c).Nodup := by
+  unfold getNames
+  cases described ad c with
+  | none => exact List.nodup_nil
+  | some ms => exact nodup_foldFamilies ms List.nodup_nil
 
 /-! ### `setAll` (the insertion loop of `register`) -/
 
@@ -223,6 +309,17 @@ theorem inv_unregister_ok {s : State} (hi : Inv s) {c : Collector} {names : List
         have := val_unique hi.n2cNodup hmem h2
         subst ho
         exact Owner.noConfusion this
+
+/-- the recorded names of a registered collector are pairwise distinct (`_get_names` records each once) -/
+theorem stored_nodup {s : State} (hi : Inv s) {c : Collector} {names : List Name}
+    (hm : (c, names) ∈ s.collectorToNames) : names.Nodup := by
+  rw [hi.stored c names hm]; exact getNames_nodup _ _
+
+theorem inv_unregister {s : State} (hi : Inv s) (c : Collector) : Inv (unregister s c).1 := by
+  by_cases hk : c ∈ s.collectorToNames.map Prod.fst
+  · obtain ⟨⟨c', ns⟩, hm, rfl⟩ := List.mem_map.1 hk
+    exact inv_unregister_ok hi hm (stored_nodup hi hm)
+  · rw [unregister_unknown hk]; exact hi
 
 /-! ### `set_target_info` -/
 
